@@ -5,7 +5,7 @@ import vlib
 TB = ["Print Assumptions: C04_generic, C04_generic_converse, C04_atomic closed under the global context",
       "protocol model Conc/PhaseLock.v (lock/batch/bump/stamp of the writer, lock/load of readers, arbitrary scheduler, any number of readers); C04_atomic is instantiated with the ORDER of those calls read from database/sync.rs on this run (tools/gen_sources.py, fixed code shape: first occurrence of write_owned/new_write_batch/fetch_add/timestamp_map.insert and read_owned/load inside the two functions)",
       "H-atomic: tokio RwLock gives mutual exclusion between write_owned and read_owned guards; AtomicU64 SeqCst; the guard is released only by dropping the session/tracked engine (a dropped session commits in a spawned task that keeps the guard)",
-      "partial: that the Rust futures take exactly these steps and make progress (tokio fairness) is validated by the stress run (no stale answer after an own commit, no torn or unstable snapshot, writer waits for a pinned reader and proceeds after it is dropped), not proved",
+      "partial: that the Rust futures take exactly these steps and make progress (tokio fairness) is validated by the stress run (no stale answer after an own commit, no torn or unstable snapshot, writer waits for a pinned reader and proceeds after it is dropped; a commit() future dropped after 1-4 polls while a reader waits in tracked(): the reader sees the whole session through a chain of 250 queries), not proved",
       ]
 
 def c04_run(millis, readers):
@@ -26,6 +26,8 @@ def bad(r):
         return "a tracked engine that was still alive observed a later session"
     if not r["writer_progressed_after_drop"] or r["after"] != -4:
         return "the session did not take effect after the reader was dropped"
+    if r.get("cancelled_commit_failures"):
+        return "a session whose commit() future was dropped after a few polls did not take effect all at once: " + r["cancelled_commit_failures"][0]
     return None
 
 def run(ctx):
